@@ -8,7 +8,7 @@ import SdnsVerif.Model.Packer
   `x` a `*dns.OPT` whose header type is not OPT) → `idx=<i|-> safe=<t|f>`
 * `opt ttl <ttl:8 hex> <rcode>` → the rewritten TTL (8 hex digits)
 * `msg decide r=<rcode> c=<t|f> q=<q,…> an=<slot,…> ns=… ex=… N=<buffer>` — a message
-  skeleton; a slot is `<kind>[id]:<packed len|E>:<uncompressed len>` (`f` = inadmissible,
+  skeleton; a slot is `<kind>[id]:<packed len|E>:<uncompressed len>` (`f` = inadmissible, `s` = a library record the packer refuses because its packing skips bytes,
   `n` = nil; equal ids = the same pointer), a question `<packed len|E>:<uncompressed len>`.
   The packed lengths are what the library produced for each piece; the model's `tryPack`
   runs over the primitive "emit that many bytes if they fit" → `handled=t len=<n>` | `handled=f`.
@@ -77,7 +77,7 @@ def parseSlot (idx : Nat) (s : String) : Option (Slot × Obj Rest) :=
     let mk (isOPT : Bool) (ty : Nat) (adm : Bool) : Obj Rest :=
       { isOPT := isOPT, hdr := { rrtype := ty, ttl := 0, rdlength := 0 }, rest := { plen := plen, adm := adm, ulen := ulen } }
     let o ← (if kind == "a" then some (mk false 1 true)
-             else if kind == "f" then some (mk false 1 false)
+             else if kind == "f" || kind == "s" then some (mk false 1 false)
              else if kind == "o" then some (mk true typeOPT true)
              else if kind == "w" then some (mk false typeOPT true)
              else if kind == "x" then some (mk true 1 true)
